@@ -221,20 +221,47 @@ func genMergeCase(r *rand.Rand, idx int, tier string, tmp string) *mergeCase {
 		k := 2 + r.Intn(2)
 		tagDV := r.Intn(2) == 0
 		sizes := make([]int, k)
+		dropsPre := make([]*roaring.Bitmap, k)
 		for i := range sizes {
 			sizes[i] = 700 + r.Intn(900)
+			if forced != 4 {
+				dropsPre[i] = gen.Drops(r, sizes[i], pick(r, 0, 2, 5, 6))
+			}
 		}
 		exact := gen.SplitExact(r, sizes) // without deletions (forced == 4) the merged terms m1024/m2048 have exactly that many documents
+		// with deletions: terms s1023/s1024/s1025/s2048 whose SURVIVING cardinality is exactly that, while further
+		// occurrences sit in deleted documents (a merger that counts before applying deletions lands on the other
+		// side of the 1024 chunking constant)
+		surv := boundarySurvivors(r, sizes, dropsPre)
 		for i := 0; i < k; i++ {
 			n := sizes[i]
 			docs, _ := gen.JumboBatch(rand.New(rand.NewSource(r.Int63())), n, fmt.Sprintf("j%d", i), tagDV)
 			gen.AddExactTerms(r, docs, "exact", exact[i])
-			s, err := gen.BuildSeg(docs, []uint32{1025, 1024, 64}[r.Intn(3)])
-			var d *roaring.Bitmap
 			if forced != 4 {
-				d = gen.Drops(r, n, pick(r, 0, 2, 5, 6))
+				gen.AddTermDocs(docs, "exact", surv[i])
 			}
-			if !add(s, err, d) {
+			s, err := gen.BuildSeg(docs, []uint32{1025, 1024, 64}[r.Intn(3)])
+			if !add(s, err, dropsPre[i]) {
+				return m
+			}
+		}
+		if forced != 4 {
+			// a previously merged tiny input in which those terms are 1-hit encoded, and whose carrier document is deleted now
+			tiny := gen.GenBatch(r, &gen.Schema{IDP: 10, Fields: []gen.FieldSpec{{Name: "body", DV: true, Vocab: []string{"common"}}}}, 3, "tiny", gen.DocOpts{})
+			gen.AddTermDocs(tiny, "exact", map[string][]int{"s1023": {1}, "s1024": {1}, "s1025": {1}, "s2048": {1}})
+			ts, err := gen.BuildSeg(tiny, 1025)
+			if err == nil {
+				var tm *gen.Seg
+				tm, _, err = gen.MergeSegs([]*gen.Seg{ts}, []*roaring.Bitmap{nil}, 1025)
+				ts.Close()
+				pos := r.Intn(len(m.Inputs) + 1)
+				if err == nil {
+					m.Inputs = append(m.Inputs[:pos], append([]*gen.Seg{tm}, m.Inputs[pos:]...)...)
+					m.Drops = append(m.Drops[:pos], append([]*roaring.Bitmap{roaring.BitmapOf(1)}, m.Drops[pos:]...)...)
+				}
+			}
+			if err != nil {
+				m.Err = err
 				return m
 			}
 		}
@@ -287,4 +314,71 @@ func pickDrop(r *rand.Rand, ds ...*roaring.Bitmap) *roaring.Bitmap { return ds[r
 
 func hashParts(parts []interface{}) uint64 {
 	return hashAny(parts...)
+}
+
+// boundarySurvivors chooses, per input, documents for the terms s1023/s1024/s1025/s2048 such that exactly that many
+// of each term's documents SURVIVE the given deletions, plus up to three deleted documents per input.
+func boundarySurvivors(r *rand.Rand, sizes []int, drops []*roaring.Bitmap) []map[string][]int {
+	out := make([]map[string][]int, len(sizes))
+	var alive, dead [][]int
+	total := 0
+	for i, n := range sizes {
+		out[i] = map[string][]int{}
+		var a, d []int
+		for doc := 0; doc < n; doc++ {
+			if drops[i] != nil && drops[i].Contains(uint32(doc)) {
+				d = append(d, doc)
+			} else {
+				a = append(a, doc)
+			}
+		}
+		alive, dead = append(alive, a), append(dead, d)
+		total += len(a)
+	}
+	for _, target := range []int{1023, 1024, 1025, 2048} {
+		if total < target {
+			continue
+		}
+		name := fmt.Sprintf("s%d", target)
+		left := target
+		for i := range sizes {
+			rest := 0
+			for _, a := range alive[i+1:] {
+				rest += len(a)
+			}
+			lo, hi := left-rest, left
+			if lo < 0 {
+				lo = 0
+			}
+			if hi > len(alive[i]) {
+				hi = len(alive[i])
+			}
+			k := lo
+			if hi > lo {
+				k = lo + r.Intn(hi-lo+1)
+			}
+			perm := r.Perm(len(alive[i]))[:k]
+			for _, p := range perm {
+				out[i][name] = append(out[i][name], alive[i][p])
+			}
+			left -= k
+			for j := 0; j < 3 && j < len(dead[i]); j++ {
+				out[i][name] = append(out[i][name], dead[i][r.Intn(len(dead[i]))])
+			}
+			out[i][name] = dedupInts(out[i][name])
+		}
+	}
+	return out
+}
+
+func dedupInts(xs []int) []int {
+	seen := map[int]bool{}
+	var out []int
+	for _, x := range xs {
+		if !seen[x] {
+			seen[x] = true
+			out = append(out, x)
+		}
+	}
+	return out
 }
